@@ -42,8 +42,10 @@ JOB_TIMEOUT = 3000
 
 def _config(rng, kind):
     if kind == "chain":
-        cfg = _config(rng, rng.choice(["allsh", "mixed"]))
-        cfg.update(kind="chain", chain=rng.choice([2, 3, 5]), workers=1)
+        # shooting everywhere: what a restart forgets about a live path
+        # (markers, limits) matters to the next shooting move from it
+        cfg = _config(rng, "allsh")
+        cfg.update(kind="chain", chain=rng.choice([2, 3]), workers=1)
         return cfg
     n = rng.randint(3, 6) if kind != "big" else 6
     if kind == "allsh":
